@@ -334,6 +334,58 @@ def nat_schema_validator(h):
         h.check(ok, SV_FILE + '::schema_validator', (desc['schema'], rows, pol, checked), want, got[:2])
 
 
+def nat_python_values_by_type(h):
+    """bounded: PYTHON values (an iterable source, a row function) of a kind related to, but not valid for, the declared type: a
+    datetime in a date field, a date in a datetime field, a bool in an integer / number field, an int in a boolean field, a float
+    with a fraction in an integer field, equal values of different types next to each other (1, True, 1.0, Decimal(1)).  Each cell
+    is judged on its own by tableschema (a fresh Field per cell is the oracle); the policy is applied to exactly the invalid ones"""
+    import datetime, decimal
+    import tableschema
+    from dataflows import Flow, validate, set_type
+    from dataflows.base.schema_validator import ignore, drop, clear
+    pools = {
+        'date': [datetime.date(2020, 1, 2), datetime.datetime(2020, 1, 2, 0, 0), datetime.datetime(2020, 1, 2, 10, 30), '2020-01-03', None, 5],
+        'datetime': [datetime.datetime(2020, 1, 2, 3, 4), datetime.date(2020, 1, 2), '2020-01-02T03:04:05', None],
+        'integer': [1, True, 1.0, decimal.Decimal(1), 1.5, '7', False, 0, None, decimal.Decimal('2.0')],
+        'number': [0, False, 1, True, 2.5, decimal.Decimal('2.5'), 'x', None],
+        'boolean': [True, 1, False, 0, 'true', 1.0, None],
+        'string': ['a', 1, None, ''],
+    }
+
+    def oracle(typ, v):
+        try:
+            return ('ok', tableschema.Field({'name': 'f', 'type': typ}).cast_value(v))
+        except tableschema.exceptions.CastError:
+            return ('bad', None)
+    for typ, pool in pools.items():
+        for _ in range(h.n(6, 40)):
+            vals = [h.rng.choice(pool) for _ in range(h.rng.randint(1, 7))]
+            for pol, hd in (('drop', drop), ('clear', clear), ('ignore', ignore)):
+                def src():
+                    # a rows-function feeds the python values in as they are, under a schema that declares the type
+                    for i, v in enumerate(vals):
+                        yield {'i': i, 'f': v}
+
+                def retype(package):
+                    package.pkg.descriptor['resources'][0]['schema']['fields'] = [{'name': 'i', 'type': 'integer'}, {'name': 'f', 'type': typ}]
+                    yield package.pkg
+                    yield from package
+                got = h.run(lambda: Flow([{'i': -1, 'f': None}], retype, lambda rows: src(), validate(on_error=hd)).results(on_error=None)[0][0])
+                want = []
+                for i, v in enumerate(vals):
+                    o = oracle(typ, v)
+                    if o[0] == 'ok':
+                        want.append({'i': i, 'f': o[1]})
+                    elif pol == 'clear':
+                        want.append({'i': i, 'f': None})
+                    elif pol == 'ignore':
+                        want.append({'i': i, 'f': v})
+                same = got[0] == 'ok' and len(got[1]) == len(want) and all(
+                    g['i'] == w['i'] and g['f'] == w['f'] and type(g['f']) is type(w['f']) for g, w in zip(got[1], want))
+                h.check(same, SV_FILE + '::schema_validator', (typ, [repr(v) for v in vals], pol), [(w['i'], repr(w['f'])) for w in want],
+                        [(g['i'], repr(g['f'])) for g in got[1]] if got[0] == 'ok' else got[:2])
+
+
 def nat_custom_handlers(h):
     """bounded: custom on_error handlers of the documented shapes -- 4 parameters (res_name, row, i, e) or 5 (.., field), the
     fifth with or without a default, plain functions and callable objects -- get exactly the arguments they declare, once per
@@ -553,11 +605,15 @@ def sym_set_type_selection(vc):
         def thunk(it, regex=regex):
             ST = real_function(it, 'dataflows.processors.set_type', 'set_type')
             pat = sym_str(it, 'fieldpat')
-            st = it.call(ST, [pat], dict(resources=None, regex=regex, type='integer'))
+            from pyvc.api import PyDict as _PD
+            cons = _PD({'minimum': 0})
+            st = it.call(ST, [pat], dict(resources=None, regex=regex, type='integer', constraints=cons))
             # the step object may have been used before (another flow, an earlier run): whatever it registered then is arbitrary
             from contracts.common import havoc_mutable_scalars
             havoc_mutable_scalars(it, st, containers=True)
             before = st.attrs.get('field_names')
+            opts0 = st.attrs.get('options')
+            opts0_items = dict(opts0.d) if isinstance(opts0, _PD) else None
             pw = mk_package2(it)
             it.path.info['allowed_exc'] = {'AssertionError': z3.BoolVal(True)}
             eff = pat.t if regex else lib.RE_ESCAPE(pat.t)
@@ -574,17 +630,27 @@ def sym_set_type_selection(vc):
                 ws = tree_writes_under(events, field)
                 opts = [e for e in ws if e.kind == 'TreeWrite' and e.key == 'type' and e.value == 'integer']
                 regs = [e for e in events if e.kind == 'Append']
-                check(it, 'matched-field-gets-options[regex=%s]' % regex, z3.Implies(m, _b(len(opts) == 1 and len(ws) == 1)))
+                cw = [e for e in ws if e.kind == 'TreeWrite' and e.key == 'constraints']
+                check(it, 'matched-field-gets-options[regex=%s]' % regex, z3.Implies(m, _b(len(opts) == 1 and len(cw) == 1 and len(ws) == 2)))
                 check(it, 'unmatched-field-untouched[regex=%s]' % regex, z3.Implies(z3.Not(m), _b(len(ws) == 0 and len(regs) == 0)))
                 check(it, 'matched-field-registered[regex=%s]' % regex,
                       z3.Implies(m, _b(len(regs) == 1 and it.cell_of(regs[0].value) == it.cell_of(field.children['name'])
                                        if len(regs) == 1 else False)))
                 cover(it, 'field-iter-reachable[regex=%s]' % regex)
             it.loops['set_type.process_datapackage#L1'] = LoopSpec(at_start=f_start, at_end=f_end)
+            # (the loop over the resources: nothing is claimed about it here beyond what its cut leaves unknown; the frame obligation
+            #  below is about state the loops do not touch)
+            it.loops['set_type.process_datapackage#L0'] = LoopSpec()
             it.call(it.lib.getattr_(it, st, 'process_datapackage'), [pw.attrs['pkg']])
             after = st.attrs.get('field_names')
             check(it, 'registered-names-are-those-of-this-package-only[regex=%s]' % regex,
                   after is not before and getattr(after, 'history', None) is None)
+            # frame: the options the step was built with are READ, not consumed -- the next use of the same step object (the flow run
+            # again, the step shared by two flows) sets the same type, format and constraints
+            opts1 = st.attrs.get('options')
+            check(it, 'the-options-of-the-step-are-left-as-they-were-given[regex=%s]' % regex, opts0_items is not None and opts1 is opts0 and
+                  isinstance(opts1, _PD) and set(opts1.d) == set(opts0_items) and all(opts1.d[k] is opts0_items[k] for k in opts0_items)
+                  and cons.d == {'minimum': 0})
         paths = vc.explore(fk, thunk, min_paths=3)
         expect_no_raise_or_same(vc, fk, paths)
     # added-flag: if no field was registered the step fails
@@ -875,7 +941,8 @@ from contracts import C10 as _K10   # noqa: E402  (ResourceMatcher: the contract
 
 ITEMS = [
     _K10._mk_matcher_item(),
-    Item('schema_validator', sym_schema_validator, [('differential', nat_schema_validator)], SV_FILE + '::schema_validator'),
+    Item('schema_validator', sym_schema_validator, [('differential', nat_schema_validator), ('python-values-by-type', nat_python_values_by_type)],
+         SV_FILE + '::schema_validator'),
     Item('wrap_handler', sym_wrap_handler, [('custom-handlers', nat_custom_handlers)], SV_FILE + '::wrap_handler'),
     Item('handlers', sym_handlers, [], SV_FILE + '::clear'),
     Item('set_type.transformer', sym_set_type_transformer, [], P + 'set_type.py::set_type.transformer'),
